@@ -19,7 +19,7 @@ import z3
 from .. import poly, quat, solve, sym
 from ..sarr import NpProxy, SArr, patched, sarr
 from ..sym import R, real
-from .common import all_eq, eq, np_installed, pydrex_modules, sample
+from .common import all_eq, eq, np_installed, pydrex_modules, sample, only_path
 
 TIMEOUT_MS = {"quick": 60000, "thorough": 300000}
 SYSTEMS = ["triclinic", "monoclinic", "orthorhombic", "rhombohedral", "tetragonal", "hexagonal"]
@@ -28,7 +28,7 @@ SYSTEMS = ["triclinic", "monoclinic", "orthorhombic", "rhombohedral", "tetragona
 def tasks(tier):
     t = [("t_quat_product", {})]
     t += [("t_symmetry_ops", {"system": s}) for s in SYSTEMS]
-    t += [("t_pipeline", {"system": "triclinic", "n_grains": 3})]
+    t += [("t_pipeline", {"system": "triclinic", "n_grains": 3}), ("t_batched", {})]
     if tier == "thorough":
         t += [("t_pipeline", {"system": "orthorhombic", "n_grains": 2})]
     return t
@@ -54,7 +54,7 @@ def t_quat_product(sess):
 
     with np_installed(utils):
         paths, _ = sym.explore(fn)
-    p = paths[0]
+    p = only_path(sess, paths)
     a, b, out = p.value
     sess.satisfiable("quat_product: reach", p.pc)
     want = hamilton(list(a), list(b))
@@ -108,7 +108,7 @@ def t_symmetry_ops(sess, system):
 
         with np_installed(utils):
             paths, _ = sym.explore(fn)
-        p = paths[0]
+        p = only_path(sess, paths)
         q, out = p.value
         s = np.asarray(_apply(utils, opa, ident), dtype=float) if opa.shape == (4, 4) else opa
         # candidate rotation: the image of the identity orientation
@@ -281,7 +281,7 @@ def t_pipeline(sess, system, n_grains):
     tag = f"pipeline[{system}, {N} grains]"
     if len(paths) != 1 or paths[0].exc is not None:
         raise sym.HarnessError(f"{tag}: unexpected paths {paths} {paths[0].exc!r}")
-    p = paths[0]
+    p = only_path(sess, paths)
     qs, r, base, perm, rot = p.value
     rules = poly.Rules().unit_quat(r)
     for g in range(N):
@@ -317,3 +317,48 @@ def t_pipeline(sess, system, n_grains):
 def default_cex(name):
     """Generic public-API replay for verdicts that carry no more specific counterexample."""
     return {"replay": "vf.props.replays:c14_triclinic", "case": {}, "cls": {"kind": "triclinic misorientation pipeline not invariant"}}
+
+
+def t_batched(sess):
+    """misorientation_indices: with Pool.imap's documented contract (results in input order) the batched variant
+    returns exactly the per-snapshot values in snapshot order, for its own pool (any ncpus) and a supplied pool."""
+    mods = pydrex_modules()
+    diag = mods["diagnostics"]
+    geo = mods["geometry"]
+    sess.encode(diag.misorientation_indices)
+    sess.assume_env("multiprocessing.Pool.imap yields f(x) for the inputs in input order (its documented contract); OS scheduling itself is outside the claim")
+    made = []
+
+    class FakePool:
+        def __init__(self, processes=None):
+            self.processes = processes
+            made.append(self)
+
+        def __enter__(self):
+            return self
+
+        def __exit__(self, *a):
+            return False
+
+        def imap(self, f, it_):
+            for x in it_:
+                yield f(x)
+
+    calls = []
+
+    def fake_index(orientations, system, bins=None):
+        calls.append((orientations, system, bins))
+        return orientations  # the snapshot's own marker stands for its index value
+
+    stack = [10.5, 11.5, 12.5, 13.5]
+    results = {}
+    with patched((diag, "Pool", FakePool), (diag, "misorientation_index", fake_index), (diag, "HAS_RAY", False)):
+        for label, kw in (("own pool, ncpus=3", dict(ncpus=3)), ("own pool, default ncpus", dict()), ("supplied pool", dict(pool=FakePool(2)))):
+            calls.clear()
+            out = diag.misorientation_indices(stack, geo.LatticeSystem.triclinic, bins=7, **kw)
+            results[label] = (list(out), [(c[1], c[2]) for c in calls])
+    for label, (out, meta) in results.items():
+        sess.prove(f"batched [{label}]: one value per snapshot, in snapshot order", [], z3.BoolVal(out == stack))
+        sess.prove(f"batched [{label}]: every snapshot is evaluated with the requested lattice system and bins", [],
+                   z3.BoolVal(all(m == (geo.LatticeSystem.triclinic, 7) for m in meta) and len(meta) == len(stack)))
+    sess.satisfiable("batched: reach", [])
